@@ -9,6 +9,8 @@ CHECKS = {
  "C02": ("exploration", "every set (size 1-2, plus unit constraints) of cardinality / PB constructor calls over 2-3 variables with weights in [-2..2] and every degree, and decreasing-coefficient constraints under every partial unit assignment, x heuristic choice list: verdict and model against integer arithmetic on the constraints as written", "§4 C02", EXPL),
  "C03": ("exploration", "(constraint set, cost function, entry point) triples: small CNF, cardinality and PB sets x every cost function over <=3-4 distinct variables (either polarity, weights nil / {0..2} / negative through OPB, or none) x {Optimal(nil), Optimal(chan), Minimize} x heuristic choice list (<=1 deviation over the whole optimisation loop): verdict, model validity, reported cost = cost(model) = truth-table minimum, result stream strictly decreasing and ending with the returned result", "§4 C03", EXPL),
  "C05": ("exploration", "problems (CNF families incl. declared-but-unused variables and the empty problem, cardinality/PB sets) x {CountModels, Enumerate with/without channel, each also after a Solve} x heuristic choice list (<=1 deviation): count and delivered model multiset against the truth-table model set, channel closed", "§4 C05", EXPL),
+ "C07": ("exploration", "CNF problems (dirty T2, all S3 multisets of <=4 clauses, unions of two minimal cores in several orders, conflict-rich seeds) x {MUS, MUSDeletion, MUSInsertion, MUSMaxSat} x heuristic choice list (<=1 deviation over all solver calls of an extraction): error iff satisfiable; result is a sub-multiset, unsatisfiable and minimal by truth table; caller's problem deep-equal afterwards", "§4 C07", EXPL),
+ "C08": ("exploration", "(problem, certificate, entry point): every sequence of <=2 certificate lines over the clause alphabet (empty clause, comments, blanks, repeated literals) on T2/S3 problems, genuine solver traces verbatim and with one literal dropped/flipped at every position, Unsat(reader) and UnsatChan; UnsatSubset on the C07 inputs: valid => every line implied (truth table); all lines RUP (independent checker) => accepted; problem restored, second check equal; subset is an unsatisfiable sub-multiset / ErrNotUnsat", "§4 C08", EXPL),
  "C09": ("exploration", "all histories over {Solve, AppendClause(c)} with 1 appended constraint from the full alphabet (clauses with repeats/tautologies/fresh variable, NewCardClause, NewPBClause), 2 from a reduced alphabet under every Solve placement, 3 short clauses, on every small base problem, x heuristic choice list (<=1 deviation): every Solve against the truth table of the conjunction so far; Unsat sticky", "§4 C09", EXPL),
  "C10": ("exploration", "every sequence of <=3 rounds of Assume(list)+Solve with every list of <=2 literals (empty, repeated, contradictory) on every small base problem (with/without units, parse-time facts, parse-time Unsat) x heuristic choice list (<=1 deviation): every round against the truth table of base AND that round's assumptions", "§4 C10", EXPL),
  "C14": ("exploration", "problems (CNF, pigeonhole as cardinality constraints with one-edit neighbours, cardinality/PB sets, with/without cost function) x {DetectAtMostOne first, not} run with CuttingPlanes on under every heuristic choice list (<=1 deviation incl. forced Luby restarts and learned-PB reductions) and once with it off: every constraint/unit handed out by the cutting-planes learner is implied (truth table, under the cost bound in force), verdict/model/optimum equal to the truth table and to the strategy-off run. Two genuine defects of the learner are recorded as known findings.", "§4 C14", EXPL),
